@@ -32,7 +32,7 @@ CHECKS = {
     ),
     "C09": (
         "exhaustive enumeration of all programs of up to N lines over a DATA/READ/RESTORE line alphabet, in every order, under every history of a fixed set, executed on the real interpreter against the reference interpreter's DATA model",
-        "All programs of 1..4 (thorough 5) lines over 20 line bodies (DATA forms incl. DATA behind another statement and inside IF, READ into every type, RESTORE / RESTORE n, loops), under 13 histories (fresh, RUN twice, CLEAR, direct READs, RUN n, edit of a DATA line, interrupted run, refused direct DATA, RENUM, over-read then appended DATA, NEW then retyped), are run and compared with the reference. Exhaustive within the bound.",
+        "All programs of 1..4 (thorough 5) lines over 20 line bodies (DATA forms incl. DATA behind another statement and inside IF, READ into every type, RESTORE / RESTORE n, loops), under 14 histories (fresh, RUN twice, CLEAR, direct READs, RUN n, edit of a DATA line, interrupted run, refused direct DATA, RENUM to small and to large line numbers, over-read then appended DATA, NEW then retyped), are run and compared with the reference. Exhaustive within the bound.",
         "Reference: flat constant list in source order; RESTORE n = first constant at or after line n; conversions as assignment.",
         "DESIGN.md §3 C09",
     ),
